@@ -2,6 +2,7 @@ import RdsProofs.Reach
 import RdsProofs.ExtraProofs
 import RdsProofs.WordedProofs
 import RdsProofs.LinkProofs
+import RdsProofs.AuditC09
 /-!
 # Property C09 — extended check: nothing seen only once ever becomes visible
 
@@ -19,6 +20,12 @@ the abstract field (`AFld.recv true`): the visible value changes to v exactly wh
 -- THEOREM: RDS.extFold_double_at_end
 -- THEOREM: RDS.C09_two_consecutive
 -- THEOREM: RDS.C09_single_never_visible
+-- THEOREM: RDS.C09_worded'
+-- THEOREM: RDS.C09_worded_country
+-- THEOREM: RDS.C09_worded_country'
+-- THEOREM: RDS.C09_worded'_suffix
+-- THEOREM: RDS.C09_text_indep_trace
+-- THEOREM: RDS.ac09_extendedMode_toPrime
 namespace RDS
 
 /-- C09 for every history and every next call -/
